@@ -279,6 +279,12 @@ pub struct SimChain {
     /// the transaction must belong to an appointment or tracker whose owner is still registered.
     pub send_monitor_db: Option<std::path::PathBuf>,
     pub send_monitor_violations: Vec<String>,
+    /// The block source is down as soon as (and as long as) the RPC outage has begun.
+    pub src_down_with_rpc: bool,
+    pub outage_started: bool,
+    /// Guard against unbounded retry recursion: panic once this many RPCs have been made.
+    pub rpc_flood_limit: Option<u64>,
+    pub rpc_flooded: bool,
 }
 
 impl SimChain {
@@ -309,6 +315,10 @@ impl SimChain {
             rpc_crash_points: false,
             send_monitor_db: None,
             send_monitor_violations: Vec::new(),
+            src_down_with_rpc: false,
+            outage_started: false,
+            rpc_flood_limit: None,
+            rpc_flooded: false,
         }
     }
 
@@ -573,7 +583,15 @@ impl SimChain {
         let txid_param = |p: &serde_json::Value| -> Option<Txid> {
             p.get(0).and_then(|v| v.as_str()).and_then(|s| s.parse::<Txid>().ok())
         };
+        if self.rpc_flood_limit.map_or(false, |l| idx >= l) {
+            self.rpc_flooded = true;
+            panic!("verif: the node was flooded with requests (retry loop without waiting)");
+        }
+        if self.rpc_down_from.is_none() {
+            self.outage_started = false;
+        }
         if self.rpc_down_from.map_or(false, |f| idx >= f) {
+            self.outage_started = true;
             let txid = match method {
                 "sendrawtransaction" => params
                     .get(0)
@@ -705,7 +723,8 @@ impl SimChain {
     fn src_call(&mut self) -> Result<(), BlockSourceError> {
         let idx = self.src_count;
         self.src_count += 1;
-        if self.src_down || self.src_fail.map_or(false, |(a, b)| idx >= a && idx < b) {
+        let with_rpc = self.src_down_with_rpc && self.outage_started && self.rpc_down_from.is_some();
+        if self.src_down || with_rpc || self.src_fail.map_or(false, |(a, b)| idx >= a && idx < b) {
             return Err(BlockSourceError::transient("simulated connection failure"));
         }
         Ok(())
